@@ -556,6 +556,30 @@ var badValues = map[string]interface{}{
 	"nilfunc2": (func(T1) (T0, error))(nil),
 	"slice":    []int{1},
 	"map":      map[string]int{},
+	// functions whose parameter objects carry malformed boolean tags
+	"optional-notbool": func(struct {
+		dig.In
+		F T0 `optional:"notabool"`
+	}) T1 {
+		return T1{}
+	},
+	"ignore-unexported-notbool": func(struct {
+		dig.In `ignore-unexported:"maybe"`
+		F      T0
+	}) T1 {
+		return T1{}
+	},
+	"group-badoption": func(struct {
+		dig.In
+		F []T0 `group:"g1,unknown"`
+	}) T1 {
+		return T1{}
+	},
+	"out-as-param": func(struct{ dig.Out }) T1 { return T1{} },
+	"in-as-result": func() struct{ dig.In } { return struct{ dig.In }{} },
+	"ptr-in":       func(*struct{ dig.In }) T1 { return T1{} },
+	"no-results":   func(T0) {},
+	"only-error":   func() error { return nil },
 }
 
 func main() {
